@@ -368,12 +368,29 @@ impl Run {
             let dir = self.verif_root.join("evidence");
             let _ = std::fs::create_dir_all(&dir);
             // a second build variant of the same check (VERIF_VARIANT=nodebug: no debug assertions, as shipped binaries are
-            // built) writes next to the main evidence file
+            // built) runs right after the main one and adds what it observed to the main run's evidence file
             let variant = std::env::var("VERIF_VARIANT").ok().filter(|v| !v.is_empty());
-            let path = dir.join(match &variant {
-                Some(v) => format!("{}.{v}.json", self.prop),
-                None => format!("{}.json", self.prop),
-            });
+            let path = dir.join(format!("{}.json", self.prop));
+            let doc = match &variant {
+                None => doc,
+                Some(v) => {
+                    let main = std::fs::read_to_string(&path).ok().and_then(|s| serde_json::from_str::<Value>(&s).ok());
+                    let Some(mut main) = main else {
+                        println!("INCONCLUSIVE property={} the main run's evidence file is missing, cannot add build variant {v}", self.prop);
+                        std::process::exit(2);
+                    };
+                    let mut second = doc["coverage"].clone();
+                    if let Some(o) = second.as_object_mut() {
+                        o.remove("rule");
+                        o.insert("wall_s".into(), doc["wall_s"].clone());
+                        o.insert("violations".into(), doc["violations"].clone());
+                    }
+                    main["coverage"][format!("second_run_build_variant_{v}")] = second;
+                    main["violations"] = json!(main["violations"].as_i64().unwrap_or(0) + violations as i64);
+                    main["wall_s"] = json!(main["wall_s"].as_f64().unwrap_or(0.) + (wall * 1000.).round() / 1000.);
+                    main
+                }
+            };
             if let Err(err) = std::fs::write(&path, serde_json::to_string_pretty(&doc).unwrap()) {
                 println!("INCONCLUSIVE property={} cannot write evidence: {err}", self.prop);
                 std::process::exit(2);
